@@ -304,13 +304,20 @@ def more_histories(real, d, markers, layout, res):
     cwd = os.getcwd()
     try:
         os.chdir(real)
-        spellings = [d + os.sep, os.path.join(d, '..', os.path.basename(d)),
+        # a directory reached through a directory link and '..': lexically that collapses to the
+        # link's own directory, really it is the parent of the link's target
+        deep = os.path.join(real, 'out', 'deep')
+        if not os.path.lexists(deep):
+            os.symlink('../tex/sub', deep)
+        spellings = [os.path.join(deep, '..'), os.path.join('out', 'deep', '..'),
+                     d + os.sep, os.path.join(d, '..', os.path.basename(d)),
                      os.path.relpath(d, real), os.path.relpath(d, real) + os.sep,
                      os.path.join('.', os.path.relpath(d, real))]
         for sp in spellings:
             conv = LatexNodes2Text()
             conv.set_tex_input_directory(sp, strict_input=True)
-            for name in ('a.tex', 'a', '../out/q.tex', '../out/q', 'sub/../../out/q.tex',
+            for name in ('a.tex', 'a', 'q.tex', 'q', 'r', '../out/q.tex', '../out/q',
+                         'sub/../../out/q.tex',
                          os.path.join(real, 'out', 'q.tex'), 'sub/b', '../tex2/o', '../TEX/s'):
                 case = {'layout': dict(lay, names=[[name.split('/'), None]]),
                         'via': 'dir-spelling', 'spelling': sp}
